@@ -257,7 +257,8 @@ def C13(t0):
     jobs = [(f'honest synthesis: {g}', r1cs.check_honest_gadgets, (g,)) for g in ('isqrt', 'sign gadgets', 'compress_to_field', 'decompress_from_field', 'elligator_map', 'is_eq')]
     jobs += [('lazy forcing', r1cs.check_lazy_forcing, ())] + [(f'ElementVar op #{i} variant {v}', r1cs.check_r1cs_ops, ((i, v),)) for i in range(10) for v in (0, 1)] + S_ZERO()[:1]
     from . import r1cs2
-    jobs += [('equality enforcement, selection, constants, zero, inner negate/double', r1cs2.check_r1cs_semantics, ())]
+    jobs += [('equality enforcement, selection, constants, zero, inner negate/double', r1cs2.check_r1cs_semantics, ()),
+             ('gadgets on undecoded operands decode them (accept only what the native decoder accepts)', r1cs2.check_validation_forced, ())]
     obs = par.run_groups(_fl(jobs, ark_only=True))
     return finish('C13', obs, t0, level='proof',
         functions=['r1cs/fqvar_ext.rs: isqrt, is_nonnegative, is_negative, abs', 'r1cs/inner.rs: compress_to_field, decompress_from_field, elligator_map, is_eq', 'r1cs/lazy.rs: element(), encoding() in all orders',
